@@ -703,6 +703,11 @@ def check_r124(fx, rep):
                     return True
                 if x[0] == "call" and isinstance(x[1], str) and F.strip_generics(x[1]).split("::")[-1] in ("or", "and", "xor") and len(x[2]) == 2:
                     return opt_ok(x[2][0], known, depth + 1) and opt_ok(x[2][1], known, depth + 1)
+                if x[0] == "call" and isinstance(x[1], str) and F.strip_generics(x[1]).split("::")[-1] == "filter" and "Option" in x[1]:
+                    # `Some(w).filter(|w| *w <= WORD_SIZE_BITS)`: what passes the filter is bounded (every Option filter of the function
+                    # compares its argument with the word size)
+                    fl = [m_ for m_, _ in F.walk(root) if m_.get("k") == "MethodCall" and m_["method"] == "filter" and "Option<" in (m_.get("recv_ty") or "")]
+                    return bool(fl) and all(closure_compares_word_bits(m_, fx) and not any(q.get("k") == "Binary" and q["op"] in ("Gt", "Ge") and mentions_word_bits(T.term(q, T.Env())[3], fx) for c_ in m_["args"] for q, _ in F.walk(c_)) for m_ in fl)
                 rl = T.root_local(x)
                 if rl is not None:
                     org = origins.get(rl[1])
